@@ -155,6 +155,33 @@ let useTypes (t:extone.Token) (h:extone.Handle) (b:extone.Box<int>) =
 let mkTok (s:string) : extone.Token =
   extone.MkToken s
 
+type CfgQ = {PairQ: int*string; TitleQ: string}
+
+let titleQ (c:CfgQ) =
+  c.TitleQ
+
+let pickQ (first:bool) x y =
+  if first then x else y
+
+let showAnyQ (x:any) =
+  frt.Sprintf1 "%v" x
+
+let classesQ r a b c =
+  let p = pickQ true a b
+  let q = pickQ false a r.PairQ
+  let n = frt.Fst c
+  let s = frt.Snd c
+  let both = [p; c]
+  let t = titleQ r
+  frt.Sprintf1 "%s:" t + frt.Sprintf1 " %d" (n + 1) + frt.Sprintf1 " %s" (s + "!") + frt.Sprintf1 " %d" (slice.Length both) + frt.Sprintf1 " %v" q
+
+let classesAnyQ a b c =
+  let p = pickQ true a b
+  let s = showAnyQ a
+  let n = c + 1
+  let both = [p; c]
+  frt.Sprintf1 "%s" s + frt.Sprintf1 " %d" n + frt.Sprintf1 " %d" (slice.Length both)
+
 let inferMany a b c d e f =
   let p = (a, b)
   let q = [c; d]
